@@ -127,7 +127,7 @@ func (in *Interp) concIndex(v Value, n int) int {
 		return int(i)
 	case SymInt:
 		w := v.T.Sort.W
-		for i := 0; i < n; i++ {
+		for i := 0; i < n && (w >= 63 || i < 1<<uint(w)); i++ {
 			if in.decide(in.ctx.Eq(v.T, in.ctx.BVConst(uint64(i), w))) {
 				return i
 			}
@@ -726,16 +726,14 @@ func (in *Interp) strLen(x Value) Value {
 }
 
 // strIndex returns s[i].
-func (in *Interp) strIndex(s, idx Value) Value {
+func (in *Interp) strIndex(s, idx Value, idxT types.Type) Value {
 	b, ok := strBytes(s)
 	if !ok {
 		panic(unsupported("indexing an opaque string"))
 	}
 	if si, ok := idx.(SymInt); ok {
 		// bounds check forks; in range: select
-		c := in.ctx
-		w := si.T.Sort.W
-		inRange := c.Cmp(smt.OpULt, si.T, c.BVConst(uint64(len(b)), w))
+		inRange := in.inRange(si, idxT, len(b))
 		if !in.decide(inRange) {
 			panic(runtimeError("index out of range"))
 		}
